@@ -67,6 +67,12 @@ extern "C" {
 void vrt_acquired (const void *mu, int writer);
 void vrt_releasing (const void *mu, int writer);
 int vrt_holders (const void *mu, int writer);
+/* scheduler introspection / control for adversarial scenarios */
+long vrt_steps (void);
+long vrt_sleeps_of (int tid);          /* number of times thread tid blocked in the modelled futex */
+int vrt_is_blocked (int tid);
+int vrt_is_finished (int tid);
+void vrt_set_chooser (int (*fn) (int n, const int *runnable, int cur));  /* returns the tid to run next (or anything else: default policy) */
 /* shadow variables for oracles: not instrumented, so they do not take part in race detection */
 long vrt_sh_add (int i, long d);
 long vrt_sh_get (int i);
